@@ -4,7 +4,7 @@ import zlib
 ID = 'C12'
 RULE = ('three streams. (a) byte level, compared with the Lean model: crc32fast::hash vs crc32 on random/structured buffers (every length 0..64, lengths to 4096), and DataView::<T>::using on frames built '
         'from arbitrary bodies for five message types with root sizes 4/8/64/12/..: valid frames, every single-bit flip of small frames, every truncation, extensions, frames with valid CRC but shorter than the '
-        'root (incl. the 4-byte frame of the empty body). (b) value level on the implementation: Payload/Status values (empty, nested, up to 1 MiB) and narrow types (u8, bool, u16, [u8;3], [u8;5], [u8;7]: roots with alignment 1-2 and odd sizes) through to_view_bytes -> DataView::using -> deserialize_view, '
+        'root (incl. the 4-byte frame of the empty body). (b) value level on the implementation: Payload/Status values (empty, nested, up to 1 MiB) a message that is one big Vec<String> (0..5000 elements, around the 16 KiB scratch tier) and narrow types (u8, bool, u16, [u8;3], [u8;5], [u8;7]: roots with alignment 1-2 and odd sizes) through to_view_bytes -> DataView::using -> deserialize_view, '
         'with EVERY single-bit flip (exhaustive up to 2 KiB frames, strided above), every truncation and some extensions of the real frame. (c) end to end over loopback: echo handler and error handler. '
         'non-trivial = a case containing both accepted and rejected frames, or a value round trip; distinct by hash')
 ASSUMPTIONS = ['accepted frames always have a 16-byte aligned root (true of every frame to_view_bytes produces; a mis-aligned root is undefined behaviour inside rkyv::archived_root and is not generated)', 'rkyv (de)serialisation is a codec pair with dec(enc v) = v; its layout, alignment and the unchecked cast are outside the Lean model (observed by stream (b), not proved)',
@@ -63,6 +63,9 @@ def gen_case(rng, idx, heavy):
             lines.append('roundtrip %d %d' % (rng.below(1 << 32), size))
             if rng.chance(1, 2):
                 lines.append('roundtrip-narrow %s %s' % (rng.choice(['u8', 'bool', 'u16', 'a3', 'a5', 'a7']), hx(bytes([rng.choice([0, 1, 2, 0xFF, rng.below(256)]) for _ in range(5)]))))
+            if rng.chance(1, 6):
+                n = rng.choice([0, 1, 300, 2047, 2048, 2049, 2100, 5000])
+                lines.append('roundtrip-narrow vs %02x%02x' % (n >> 8, n & 255))
             if rng.chance(1, 3):
                 lines.append('roundtrip-status %d %s' % (rng.below(5), hx(''.join(rng.choice('ab é/') for _ in range(rng.below(40))).encode())))
         else:
